@@ -5,7 +5,7 @@
 From Coq Require Import ZArith Bool String List Reals.
 From Flocq Require Import Core BinarySingleNaN.
 Require Import NixV.Base.Prelude NixV.Base.F64 NixV.Base.F64Facts NixV.Gen.GenDimensions.
-Require NixV.Access.Retrieval NixV.Access.VecUnits NixV.Gen.GenPairs NixV.Axis.PairBridge NixV.Gen.GenRange NixV.Axis.RangeBridge NixV.Axis.Wrappers.
+Require NixV.Access.Retrieval NixV.Access.VecUnits NixV.Gen.GenPairs NixV.Axis.PairBridge NixV.Gen.GenRange NixV.Axis.RangeBridge NixV.Axis.Wrappers NixV.Gen.GenScale NixV.Access.ScaleBridge.
 Require Import NixV.Axis.AxisSpec NixV.Axis.AxisSpecProofs NixV.Axis.SampledHand NixV.Axis.SearchProofs
                NixV.Axis.SampledProofs NixV.Axis.IntAxisProofs NixV.Axis.RangeModel NixV.Axis.RangeProofs
                NixV.Axis.RoundTrip NixV.Axis.Totality.
@@ -199,3 +199,12 @@ Print Assumptions C07_deprecated_range_pair_unchecked_refuted.
 
 Theorem C07_current_routes_repaired : Wrappers.range_pair2_checks_order_now = true.
 Proof. reflexivity. Qed.
+
+(** * scalePositions regenerated from src/util/dataAccess.cpp on this run IS the function of the model the unit-carrying
+    vector overloads are stated over (getSIScaling is its parameter: the unit algebra of C18) *)
+Theorem C07_scalePositions_is_generated : forall starts ends units dun out_s out_e,
+  (Nat.min (List.length starts) (List.length ends) < 200)%nat ->
+  GenScale.scalePositions_gen starts ends units dun out_s out_e Retrieval.getSIScaling
+  = Retrieval.scalePositions starts ends units dun.
+Proof. exact ScaleBridge.scalePositions_generated. Qed.
+Print Assumptions C07_scalePositions_is_generated.
